@@ -222,7 +222,7 @@ def run_unit(eng, lang, unit, **kw):
         # the assigned value is requested at the entry depth, but for a non-void type: the dispatcher selects
         # gen_assignment for the void type only, every other generator deepens
         slack = [r for r in slack if r['type'] is None or r['type'] == w.f.get_void_type()]
-    if unit not in ('generate_expr', 'gen_variable_decl', 'select_superclass', 'gen_lambda', 'gen_is_expr') and res is not None:
+    if unit not in ('generate_expr', 'gen_variable_decl', 'select_superclass', 'gen_lambda', 'gen_is_expr', 'gen_matching_func', 'gen_class_decl') and res is not None:
         out.append(('C18', Ob('recursion-progress|%s' % unit, not slack,
                               dict(case, requests_at_entry_depth=[str(r['type']) for r in slack][:3]))))
     if unit == 'gen_new' and depth0 + 1 > 2 * max_depth:
@@ -677,6 +677,74 @@ def c_gen_is_expr(w, etype, subtype, res, case):
     return out
 
 
+def u_gen_matching_func(w, etype, subtype):
+    """where a helper function for a type mentioning a type variable of the enclosing class is declared"""
+    g = w.g
+    T = w.classes['Gg'].type_parameters[0]
+    g.namespace = G + ('Gg', 'mm')
+    g.context.add_type(G + ('Gg',), T.name, T)
+    shapes = [T, w.classes['Gg'].get_type().new([T]), w.classes['Gg'].get_type().new([w.classes['Gg'].get_type().new([T])]),
+              w.classes['Aa'].get_type()]
+    w.mf_type = shapes[w.pool.index(etype) % len(shapes)]
+    w.mf_calls = []
+
+    def gen_func_decl(etype=None, params=None, not_void=False, **kw):
+        w.mf_calls.append(dict(namespace=tuple(g.namespace), etype=etype))
+        return ast.FunctionDeclaration('helper', [], etype, ast.BottomConstant(etype), ast.FunctionDeclaration.FUNCTION)
+    g.gen_func_decl = gen_func_decl
+    g._gen_matching_class = lambda *a, **k: 'class-instead'
+    return g._gen_matching_func(w.mf_type, not_void=True)
+
+
+def c_gen_matching_func(w, etype, subtype, res, case):
+    out = []
+    case = dict(case, requested_type=str(w.mf_type), declared_in=[list(c['namespace']) for c in w.mf_calls])
+    for c in w.mf_calls:
+        if w.mf_type.has_type_variables():
+            out.append(('C05', Ob('gen_matching_func|type-variables-of-the-helper-are-in-scope',
+                                  c['namespace'][:2] == G + ('Gg',), case)))
+        out.append(('C05', Ob('gen_matching_func|scope-restored', tuple(w.g.namespace) == G + ('Gg', 'mm'), case)))
+    return out
+
+
+def u_gen_class_decl(w, etype, subtype):
+    """the bookkeeping of gen_class_decl around its three phases (superclass selection, fields, functions)"""
+    g = w.g
+    g.namespace = G
+    w.phases = []
+
+    def rec(phase, ret):
+        def fn(*a, **k):
+            name = g.namespace[-1]
+            w.phases.append(dict(phase=phase, name=name, blacklisted=name in g._blacklisted_classes,
+                                 registered=name in g.context.get_classes(G), namespace=tuple(g.namespace), depth=g.depth))
+            return ret
+        return fn
+    g._select_superclass = rec('select_superclass', None)
+    g.gen_class_fields = rec('fields', [])
+    g.gen_class_functions = rec('functions', [])
+    g.gen_type_params = lambda *a, **k: []
+    w.entry = dict(depth=g.depth, blacklist=set(g._blacklisted_classes))
+    return g.gen_class_decl()
+
+
+def c_gen_class_decl(w, etype, subtype, res, case):
+    out = []
+    g = w.g
+    case = dict(case, phases=[(p['phase'], p['blacklisted'], p['registered']) for p in w.phases], declared=getattr(res, 'name', None))
+    for p in w.phases:
+        out.append(('C05', Ob('gen_class_decl|class-under-construction-is-blacklisted-during-%s' % p['phase'],
+                              p['blacklisted'] and p['name'] == res.name, case)))
+        out.append(('C05', Ob('gen_class_decl|class-registered-before-%s' % p['phase'], p['registered'], case)))
+        out.append(('C05', Ob('gen_class_decl|members-generated-in-the-class-scope', p['namespace'] == G + (res.name,), case)))
+    out.append(('C05', Ob('gen_class_decl|blacklist-and-scope-restored', g._blacklisted_classes == w.entry['blacklist']
+                          and tuple(g.namespace) == G and g.depth == w.entry['depth'], case)))
+    out.append(('C05', Ob('gen_class_decl|fresh-capitalised-name', res.name not in w.classes and res.name[:1].isupper(), case)))
+    phases = [p['phase'] for p in w.phases]
+    out.append(('C05', Ob('gen_class_decl|interfaces-have-no-fields', ('fields' not in phases) == res.is_interface(), case)))
+    return out
+
+
 def u_select_superclass(w, etype, subtype):
     g = w.g
     g.namespace = G + ('Newcls',)
@@ -717,11 +785,11 @@ def c_select_superclass(w, etype, subtype, res, case):
 UNITS = dict(gen_variable=u_gen_variable, gen_assignment=u_gen_assignment, gen_conditional=u_gen_conditional,
              gen_new=u_gen_new, gen_variable_decl=u_gen_variable_decl, generate_expr=u_generate_expr,
              gen_field_access=u_gen_field_access, gen_func_call=u_gen_func_call, select_superclass=u_select_superclass, gen_lambda=u_gen_lambda,
-             gen_is_expr=u_gen_is_expr)
+             gen_is_expr=u_gen_is_expr, gen_matching_func=u_gen_matching_func, gen_class_decl=u_gen_class_decl)
 CHECKS = dict(gen_variable=c_gen_variable, gen_assignment=c_gen_assignment, gen_conditional=c_gen_conditional,
               gen_new=c_gen_new, gen_variable_decl=c_gen_variable_decl, generate_expr=c_generate_expr,
               gen_field_access=c_gen_field_access, gen_func_call=c_gen_func_call, select_superclass=c_select_superclass, gen_lambda=c_gen_lambda,
-              gen_is_expr=c_gen_is_expr)
+              gen_is_expr=c_gen_is_expr, gen_matching_func=c_gen_matching_func, gen_class_decl=c_gen_class_decl)
 FUNCS = dict(gen_variable=[Generator.gen_variable], gen_assignment=[Generator.gen_assignment, Generator._get_assignable_vars,
                                                                      Generator._get_classes_with_assignable_fields],
              gen_conditional=[Generator.gen_conditional], gen_new=[Generator.gen_new, Generator._get_subclass],
@@ -729,6 +797,7 @@ FUNCS = dict(gen_variable=[Generator.gen_variable], gen_assignment=[Generator.ge
              gen_field_access=[Generator.gen_field_access, Generator._get_matching_objects, Generator._get_matching_class],
              select_superclass=[Generator._select_superclass], gen_lambda=[Generator.gen_lambda],
              gen_is_expr=[Generator.gen_is_expr, Generator._filter_subtypes],
+             gen_matching_func=[Generator._gen_matching_func], gen_class_decl=[Generator.gen_class_decl],
              gen_func_call=[Generator._gen_func_call, Generator._get_matching_function_declarations,
                             Generator._get_matching_objects, Generator._is_sigtype_compatible])
 
